@@ -255,7 +255,7 @@ def main():  # noqa: PLR0912, PLR0915
             if x.get("replayed"):
                 violations.append((f"{r['contract']}: {x['obligation']}: {x['replayed']}"[:600], path, ""))
             elif x.get("abstraction_only"):
-                undecided.append(f"{r['contract']}: obligation {x['obligation']}: the two sides were summarised by different loop abstractions (not recognised as the same loop): proof failure, no counterexample")
+                undecided.append(f"{r['contract']}: obligation {x['obligation']}: the two sides were summarised by different abstractions (loops not recognised as the same loop, or different compositions of uninterpreted string functions) and no input of the witness search separates them on the real code: proof failure, no counterexample")
             elif baseline_has(prop, r["contract"], x["obligation"]):
                 violations.append((f"{r['contract']}: obligation {x['obligation']} ({x['note']}) was discharged on the reference tree and now fails", path, " no-failing-input-found"))
             else:
@@ -297,6 +297,14 @@ def main():  # noqa: PLR0912, PLR0915
         if lemma_note.startswith("FAILED"):
             errors.append("lemmas/Rules.lean: " + lemma_note)
         assumed.add("lemmas/Rules.lean (foreach_congr, fold_congr, filter_keeps, append_keeps, values_of_compound): " + lemma_note)
+
+    # ---- the string laws of the pointer text codec (enc/dec/split/join), proved in Lean; the model of the
+    # three library functions is compared with CPython in the same run
+    if any(c["contract"] in ("JSONPointer._encode==pointer_text", "JSONPointer._parse==parse_text", "JSONPointer.__truediv__==join_tokens") for c in contracts_report):
+        note = check_pointer_text_lemmas()
+        if note.startswith("FAILED"):
+            errors.append("lemmas/PointerText.lean: " + note)
+        assumed.add("lemmas/PointerText.lean (dec_enc, enc_no_slash, split_join, join_split, parse_text, text_injective, enc_dec, text_parse; str.replace / split / join modelled on List Char): " + note)
 
     wall = time.time() - t0
     level = "proof" if (obligations > 0 and obligations == discharged and not undecided and not errors) else "other"
@@ -393,6 +401,41 @@ def check_lemmas():
     if r.returncode == 0 and "error" not in r.stdout and "sorry" not in r.stdout:
         return "re-checked by Lean 4 in this run (exit 0, no sorry)"
     return "FAILED: " + (r.stdout + r.stderr)[-600:]
+
+
+def check_pointer_text_lemmas():
+    """Run core Lean on lemmas/PointerText.lean and compare what its model of str.replace / split / join
+    prints (`#eval`, every string over {~ / 0 1 a} up to length 6) with CPython."""
+    import shutil
+    import subprocess
+
+    exe = shutil.which("lean")
+    if exe is None:
+        return "NOT re-checked in this run (no `lean` on PATH): assumed"
+    try:
+        r = subprocess.run([exe, os.path.join(HERE, "lemmas", "PointerText.lean")], capture_output=True, text=True, timeout=600, check=False)
+    except Exception as e:  # noqa: BLE001
+        return f"NOT re-checked in this run ({type(e).__name__}): assumed"
+    lines = [ln[6:] for ln in r.stdout.splitlines() if ln.startswith("MODEL ")]
+    rest = [ln for ln in r.stdout.splitlines() if not ln.startswith("MODEL ")]
+    if r.returncode != 0 or any("error" in ln or "sorry" in ln for ln in rest):
+        return "FAILED: " + ("\n".join(rest) + r.stderr)[-600:]
+    if len(lines) != sum(5**k for k in range(7)):
+        return f"FAILED: the model printed {len(lines)} lines"
+
+    def enc(t):
+        return t.replace("~", "~0").replace("/", "~1")
+
+    def dec(t):
+        return t.replace("~1", "/").replace("~0", "~")
+
+    for ln in lines:
+        f = ln.split("|")
+        t = f[0]
+        want = [t, t.replace("~", "~0"), t.replace("/", "~1"), t.replace("~1", "/"), t.replace("~0", "~"), ",".join(t.split("/")), "/".join(t.split("a")), enc(t), dec(t), ",".join([dec(x) for x in t.split("/")][1:])]
+        if f != want:
+            return f"FAILED: the Lean model of the string library disagrees with CPython on {t!r}: {f} vs {want}"
+    return f"re-checked by Lean 4 in this run (exit 0, no sorry); its model of str.replace/split/join agrees with CPython on {len(lines)} strings (bounded cross-check of the library assumption)"
 
 
 def baseline_has(prop, contract, obligation):
